@@ -83,6 +83,10 @@ type BlockPipeline struct {
 	wg              sync.WaitGroup
 	mu              sync.Mutex   // protects Start/Stop
 	submitMu        sync.RWMutex // protects Submit against concurrent Stop
+	// inFlight counts items that were accepted by Submit and have not yet
+	// left the apply stage (applied, failed or skipped). Unlike the channel
+	// lengths it also covers items a stage worker currently holds.
+	inFlight atomic.Int64
 	// submitSem serialises sequence allocation with the enqueue, so that a
 	// submission which gives up while the pipeline is full does not consume
 	// a sequence number
@@ -191,6 +195,7 @@ func (p *BlockPipeline) Start(ctx context.Context) error {
 		bufSize, // Deprecated: pendingQueueSize is no longer used (kept for API compatibility)
 	)
 	p.applyRunner.SetMetrics(p.metrics)
+	p.applyRunner.SetOnItemDone(func() { p.inFlight.Add(-1) })
 
 	// Start all stages
 	// Note: p.ctx is derived from the passed ctx via context.WithCancel above
@@ -245,6 +250,8 @@ func (p *BlockPipeline) Submit(ctx context.Context, blockType uint, rawCbor []by
 
 	item := NewBlockItem(blockType, rawCbor, tip, p.sequenceCounter.Load())
 
+	// Count the item before a worker can see it
+	p.inFlight.Add(1)
 	select {
 	case p.submitChan <- item:
 		p.sequenceCounter.Add(1)
@@ -253,8 +260,10 @@ func (p *BlockPipeline) Submit(ctx context.Context, blockType uint, rawCbor []by
 	case <-ctx.Done():
 		// Context cancelled while waiting: the sequence number was not
 		// consumed, so later submissions are unaffected.
+		p.inFlight.Add(-1)
 		return ctx.Err()
 	case <-p.ctx.Done():
+		p.inFlight.Add(-1)
 		return ErrPipelineStopped
 	}
 }
@@ -341,7 +350,13 @@ func (p *BlockPipeline) PendingCount() int {
 	if p.applyStage != nil {
 		applyPending = p.applyStage.PendingCount()
 	}
-	return channelDepth + applyPending
+	pending := channelDepth + applyPending
+	// Items held by a stage worker (taken from one channel, not yet put into
+	// the next) are in neither of the above; the in-flight counter has them.
+	if inFlight := int(p.inFlight.Load()); inFlight > pending {
+		pending = inFlight
+	}
+	return pending
 }
 
 // WaitForDrain blocks until all currently submitted items have been processed
